@@ -18,6 +18,5 @@ INVARIANT GRecursive
 INVARIANT GExists
 INVARIANT GProbes
 INVARIANT GProbesLabels
-INVARIANT GAllowed
 CHECK_DEADLOCK FALSE
 POSTCONDITION ExportGlob
